@@ -11,9 +11,9 @@
 package main
 
 import (
+	"bufio"
 	_ "crypto/sha256"
 	_ "crypto/sha512"
-	"bufio"
 	"encoding/json"
 	"flag"
 	"fmt"
@@ -29,12 +29,12 @@ type Script struct {
 	Lines int
 	Stats map[string]int
 	// Samples holds the first few cases verbatim for the evidence file.
-	Samples  []string
-	cur      strings.Builder
-	nontriv  map[string]bool
-	curNT    bool
-	Nontriv  int
-	Extra    map[string]any
+	Samples []string
+	cur     strings.Builder
+	nontriv map[string]bool
+	curNT   bool
+	Nontriv int
+	Extra   map[string]any
 }
 
 func NewScript(path string) *Script {
